@@ -447,6 +447,8 @@ void TigaPropertyBuilder::typeProperty(expression_t expr)
 
 void TigaPropertyBuilder::strategy_declaration(const char* id)
 {
+    if (properties.empty())  // the property was rejected (or the model and the query file do not correspond)
+        return;
     const std::string name = std::string(id);
     if (auto it = declarations.find(name); it != declarations.end()) {
         declarations.erase(it);
